@@ -12,7 +12,7 @@ use miniz_oxide::inflate::TINFLStatus;
 use miniz_oxide::{DataFormat, MZFlush};
 use serde_json::{json, Value};
 
-pub const ENTRY: &[&str] = &["flat", "ring32k", "flat-ignore-adler", "inflate", "inflate-ignore-adler", "mz_inflate", "mz_uncompress", "tinfl_decompress", "tinfl_mem_to_mem", "flat-reused", "inflate-reused"];
+pub const ENTRY: &[&str] = &["flat", "ring32k", "flat-ignore-adler", "inflate", "inflate-ignore-adler", "mz_inflate", "mz_uncompress", "tinfl_decompress", "tinfl_mem_to_mem", "flat-reused", "inflate-reused", "flat-reused-abandoned", "flat-reused-failed", "inflate-reused-abandoned", "inflate-finish"];
 
 /// A complete small stream of the *other* framing, decoded by the object before it is
 /// re-initialised and used for the stream under test ("which entry point" includes a recycled decoder).
@@ -62,15 +62,10 @@ pub fn consumed_via(ep: &str, s: &GenStream, data: &[u8], ch: usize) -> Result<(
             let r = run_cuts(data, Mode::Flat, n + 16, zf, &cuts_of(ch, data.len()), false, 0x11);
             check("flat", r.status == TINFLStatus::Done, r.consumed, &r.out)
         }
-        "flat-reused" => {
-            let prev = other_format_stream(s.zlib);
-            let pf = if s.zlib { 0 } else { F_ZLIB };
-            let r = run_cuts_with(data, Mode::Flat, n + 16, zf, &cuts_of(ch, data.len()), false, 0x11, |d| {
-                let mut scratch = vec![0u8; 256];
-                let _ = miniz_oxide::inflate::core::decompress(d, &prev, &mut scratch, 0, pf | F_FLAT);
-                d.init();
-            });
-            check("flat, decoder reused after init()", r.status == TINFLStatus::Done, r.consumed, &r.out)
+        "flat-reused" | "flat-reused-abandoned" | "flat-reused-failed" => {
+            let kind = match ep { "flat-reused" => 0, "flat-reused-abandoned" => 1, _ => 2 };
+            let r = run_cuts_with(data, Mode::Flat, n + 16, zf, &cuts_of(ch, data.len()), false, 0x11, |d| apply_reuse_history(d, kind, s.zlib));
+            check(&format!("flat, decoder reused ({}) after init()", REUSE_KINDS[kind]), r.status == TINFLStatus::Done, r.consumed, &r.out)
         }
         "flat-ignore-adler" => {
             if !s.zlib {
@@ -83,7 +78,7 @@ pub fn consumed_via(ep: &str, s: &GenStream, data: &[u8], ch: usize) -> Result<(
             let r = run_cuts(data, Mode::Ring, 32768, zf, &cuts_of(ch, data.len()), false, 0x11);
             check("ring", r.status == TINFLStatus::Done, r.consumed, &r.out)
         }
-        "inflate" | "inflate-ignore-adler" | "inflate-reused" => {
+        "inflate" | "inflate-ignore-adler" | "inflate-reused" | "inflate-reused-abandoned" | "inflate-finish" => {
             if ep == "inflate-ignore-adler" && !s.zlib {
                 return Ok(());
             }
@@ -102,15 +97,34 @@ pub fn consumed_via(ep: &str, s: &GenStream, data: &[u8], ch: usize) -> Result<(
                 let _ = inflate(&mut st, &prev, &mut scratch, MZFlush::Finish);
                 st.reset(fmt);
             }
+            if ep == "inflate-reused-abandoned" {
+                let (prev, _) = reuse_history_bytes(1, s.zlib);
+                let mut scratch = vec![0u8; 4096];
+                let _ = inflate(&mut st, &prev, &mut scratch, MZFlush::None);
+                st.reset_as(miniz_oxide::inflate::stream::MinReset);
+            }
+            // "inflate-finish": the first chunk with flush None, everything after it with Finish and a
+            // 7-byte output buffer (Finish calls that run out of room answer Buf and are repeated)
+            let finish_mode = ep == "inflate-finish";
             let mut out = vec![];
             let mut buf = vec![0u8; n + 64];
             let mut ip = 0;
-            let pts: Vec<usize> = cuts_of(ch, data.len()).into_iter().chain(std::iter::once(data.len())).collect();
+            let mut pts: Vec<usize> = cuts_of(ch, data.len()).into_iter().chain(std::iter::once(data.len())).collect();
+            if finish_mode {
+                // a Finish request is only meaningful with the whole remaining input on offer
+                // (and never on the very first call, where the wrapper decodes straight into the
+                // caller's buffer and a short buffer is a documented dead end)
+                let first = if pts.len() > 1 { pts[0] } else { 1 };
+                pts = vec![first.clamp(1, data.len()), data.len()];
+                pts.dedup();
+            }
             let mut ended = false;
             'o: for &p in &pts {
                 let mut guard = 0;
                 loop {
-                    let r = inflate(&mut st, &data[ip..p], &mut buf, MZFlush::None);
+                    let fin = finish_mode && p == data.len();
+                    let room = if fin { 7.min(buf.len()) } else { buf.len() };
+                    let r = inflate(&mut st, &data[ip..p], &mut buf[..room], if fin { MZFlush::Finish } else { MZFlush::None });
                     if std::env::var("MC_DEBUG").is_ok() {
                         eprintln!("inflate(in={} bytes, room={}) -> {:?} consumed={} written={}", p - ip, buf.len(), r.status, r.bytes_consumed, r.bytes_written);
                     }
@@ -126,6 +140,8 @@ pub fn consumed_via(ep: &str, s: &GenStream, data: &[u8], ch: usize) -> Result<(
                                 break;
                             }
                         }
+                        // Finish that ran out of output room: call again
+                        Err(miniz_oxide::MZError::Buf) if fin && r.bytes_written == room && room > 0 => {}
                         // starved for input (bytes still in the bit buffer may have been delivered along with it)
                         Err(miniz_oxide::MZError::Buf) if ip == p => break,
                         Err(e) => return Err(format!("inflate(): error {} before stream end", e as i32)),
